@@ -103,6 +103,12 @@ def fate_of(fn, l, wrapped=False, seen=None, fate=None, depth=0):
             elif any(p.endswith(x) or q.endswith(x) for x in PASS_THROUGH):
                 if dest is not None:
                     fate_of(fn, dest, wrapped, seen, fate, depth + 1)
+            elif p.endswith("Result::<T, E>::or") or q.endswith("Result::<T, E>::or"):
+                # a.or(b): when a is Err its error is replaced by b's outcome, when a is Ok the already evaluated b is dropped
+                # with whatever error it holds - either way an error can vanish
+                fate.discarded = True
+                fate.trail.append("Result::or drops this error (%s)" % ("receiver: replaced by the alternative" if extra == 0 else
+                                                                        "alternative: dropped whenever the receiver is Ok"))
             elif any(p.endswith(x) or q.endswith(x) for x in PANICKERS):
                 fate.unwrapped = True
             elif any(p.endswith(x) or q.endswith(x) for x in DISCARDERS):
